@@ -185,10 +185,11 @@ struct Model {
         return out;
     }
     // the Hamiltonian as a matrix on the full Fock space, assembled from the prepared blocks; entries scaled to integers
-    json jq_hfock(long scale) {
+    json jq_hfock(long scale, Hamiltonian* HH = nullptr) {
+        if (!HH) HH = H;
         json ent = json::array();
         for (int b = 0; b < S->NumberOfBlocks(); ++b) {
-            const MatrixType& Hm = H->getPart(BlockNumber(b)).getMatrix();
+            const MatrixType& Hm = HH->getPart(BlockNumber(b)).getMatrix();
             const std::vector<FockState>& st = S->getFockStates(BlockNumber(b));
             for (int r = 0; r < Hm.rows(); ++r)
                 for (int c = 0; c < Hm.cols(); ++c)
@@ -253,6 +254,16 @@ struct Model {
                 if (std::abs(A(r, c)) > thr) e.push_back(json::array({r, c, dstr(A(r, c).real()), dstr(A(r, c).imag())}));
         return e;
     }
+    // entries in units of delta (rounded), entries below delta/2 omitted
+    static json mat_entries_q(const CMat& A, double delta) {
+        json e = json::array();
+        for (int r = 0; r < A.rows(); ++r)
+            for (int c = 0; c < A.cols(); ++c) {
+                long re = std::lround(A(r, c).real() / delta), im = std::lround(A(r, c).imag() / delta);
+                if (re != 0 || im != 0) e.push_back(json::array({r, c, re, im}));
+            }
+        return e;
+    }
     static json bimap_json(const FieldOperator& F) {
         json b = json::array();
         const FieldOperator::BlocksBimap& bm = F.getBlockMapping();
@@ -287,6 +298,9 @@ struct Model {
             else if (name == "hmatrix") { if (build_h(false)) { r["M"] = M; r["blocks"] = jq_hmatrix(); } }
             else if (name == "hfock") { if (build_h(false)) { r["M"] = M; r["tab"] = jq_index(); r["entries"] = jq_hfock(q.value("scale", 1L)); r["scale"] = q.value("scale", 1L);
                                                               r["sites"] = sc["sites"]; r["calls"] = sc["build"]; r["den"] = box.den; } }
+            else if (name == "c10") q_c10(q, r);
+            else if (name == "c07") q_c07(q, r);
+            else if (name == "c03") q_c03(q, r);
             else if (name == "eig") { if (build_h()) { r["M"] = M; r["blocks"] = jq_eig(); } }
             else if (name == "spectrum") { if (build_h()) { r["M"] = M; json b = jq_spectrum(); for (auto it = b.begin(); it != b.end(); ++it) r[it.key()] = it.value(); } }
             else if (name == "fieldops") q_fieldops(q, r);
@@ -301,6 +315,108 @@ struct Model {
         if (!ex.empty()) r["ex"] = ex;
         if (!fail.empty()) r["fail"] = fail;
         return r;
+    }
+
+    // C10: every c^+_i, c_i (container route with its adjoint shortcut, and computed one by one) and c^+_i c_j rotated back
+    // to the Fock basis with the stored eigenvectors, in units of 1e-9
+    void q_c10(const json& q, json& r) {
+        if (!build_h(true)) return;
+        r["M"] = M;
+        const double delta = 1e-9;
+        FieldOperatorContainer* C = ops();
+        if (!C) return;
+        json out = json::array();
+        for (int i = 0; i < M; ++i) {
+            CreationOperator& cx = const_cast<CreationOperator&>(C->getCreationOperator(i));
+            AnnihilationOperator& c = const_cast<AnnihilationOperator&>(C->getAnnihilationOperator(i));
+            out.push_back(json::array({"container", json::array({json::array({1, i})}), mat_entries_q(rotate_back(cx), delta), int(cx.getStatus())}));
+            out.push_back(json::array({"container", json::array({json::array({0, i})}), mat_entries_q(rotate_back(c), delta), int(c.getStatus())}));
+            CreationOperator cx1(*IC, *S, *H, i); cx1.prepare(); cx1.compute();
+            AnnihilationOperator c1(*IC, *S, *H, i); c1.prepare(); c1.compute();
+            out.push_back(json::array({"single", json::array({json::array({1, i})}), mat_entries_q(rotate_back(cx1), delta), int(cx1.getStatus())}));
+            out.push_back(json::array({"single", json::array({json::array({0, i})}), mat_entries_q(rotate_back(c1), delta), int(c1.getStatus())}));
+            // the stored annihilation parts are the Hermitian conjugates of the stored creation parts (eigenbasis, part by part)
+            double worst = 0;
+            for (FieldOperatorPart* p : c.getParts()) {
+                FieldOperatorPart& pc = cx.getPartFromLeftIndex(BlockNumber(p->getRightIndex()));
+                worst = std::max(worst, (MatrixType(p->getRowMajorValue()) - MatrixType(pc.getRowMajorValue()).adjoint()).cwiseAbs().sum());
+                worst = std::max(worst, (MatrixType(p->getRowMajorValue()) - MatrixType(p->getColMajorValue())).cwiseAbs().sum());
+            }
+            out.push_back(json::array({"adjoint", json::array({json::array({0, i})}), json::array(), (long)std::lround(worst / delta)}));
+        }
+        for (int i = 0; i < M; ++i) for (int j = 0; j < M; ++j) {
+            QuadraticOperator A(*IC, *S, *H, i, j); A.prepare(); A.compute();
+            out.push_back(json::array({"single", json::array({json::array({1, i}), json::array({0, j})}), mat_entries_q(rotate_back(A), delta), int(A.getStatus())}));
+        }
+        r["ops"] = out;
+    }
+
+    // everything Symmetry.tla's definition level talks about: partition, addresses, bimaps of every field operator
+    void q_c07(const json& q, json& r) {
+        r["sites"] = sc["sites"]; r["calls"] = sc["build"]; r["den"] = box.den;
+        r["partition"] = sc.value("partition", json::object());
+        if (!build_h(true)) return;
+        r["M"] = M; r["tab"] = jq_index();
+        json b = jq_blocks(); for (auto it = b.begin(); it != b.end(); ++it) r[it.key()] = it.value();
+        json bm = json::array();
+        auto pairs = [&](FieldOperator& F) { F.prepare(); return bimap_json(F); };
+        for (int i = 0; i < M; ++i) {
+            CreationOperator cx(*IC, *S, *H, i); AnnihilationOperator c(*IC, *S, *H, i);
+            bm.push_back(json::array({json::array({json::array({1, i})}), pairs(cx)}));
+            bm.push_back(json::array({json::array({json::array({0, i})}), pairs(c)}));
+        }
+        for (int i = 0; i < M; ++i) for (int j = 0; j < M; ++j) {
+            QuadraticOperator A(*IC, *S, *H, i, j);
+            bm.push_back(json::array({json::array({json::array({1, i}), json::array({0, j})}), pairs(A)}));
+        }
+        r["bimaps"] = bm;
+    }
+
+    // C03: exact prepared matrix, then the eigen-system with residuals computed against that prepared matrix
+    void q_c03(const json& q, json& r) {
+        r["sites"] = sc["sites"]; r["calls"] = sc["build"]; r["den"] = box.den;
+        if (!build_blocks()) return;
+        // a Hamiltonian object of its own, so that the prepared matrices are seen before compute() overwrites them
+        Hamiltonian* H = nullptr;
+        if (!stage("hamiltonian.prepare", [&] { H = new Hamiltonian(*IC, *HS, *S); H->prepare(world); })) return;
+        r["M"] = M; r["tab"] = jq_index();
+        long scale = q.value("scale", 16L);
+        r["scale"] = scale; r["entries"] = jq_hfock(scale, H);
+        std::vector<MatrixType> prepared;
+        for (int b = 0; b < S->NumberOfBlocks(); ++b) prepared.push_back(H->getPart(BlockNumber(b)).getMatrix());
+        if (!stage("hamiltonian.compute", [&] { H->compute(world); })) return;
+        json b0 = jq_blocks(); r["block"] = b0["block"]; r["inner"] = b0["inner"]; r["sizes"] = b0["sizes"];
+        const double delta = 1e-10, qd = 1e-6;
+        json blocks = json::array();
+        double hnorm = 1.0;
+        for (auto& Hm : prepared) if (Hm.size()) hnorm = std::max(hnorm, Hm.cwiseAbs().maxCoeff());
+        double gmin = 1e300;
+        for (int b = 0; b < S->NumberOfBlocks(); ++b) {
+            const HamiltonianPart& hp = H->getPart(BlockNumber(b));
+            const MatrixType& V = hp.getMatrix();
+            const RealVectorType& E = hp.getEigenValues();
+            MatrixType Ed = E.template cast<MelemType>().asDiagonal();
+            double resid = (prepared[b] * V - V * Ed).cwiseAbs().maxCoeff() / hnorm;
+            double ortho = (V.adjoint() * V - MatrixType::Identity(V.rows(), V.cols())).cwiseAbs().maxCoeff();
+            json Es = json::array(), Eq = json::array();
+            for (int k = 0; k < E.size(); ++k) { Es.push_back(dstr(E(k))); Eq.push_back((long)std::floor(E(k) / qd)); gmin = std::min(gmin, E(k)); }
+            // getEigenState(k) must be column k of the stored matrix
+            double colmis = 0;
+            for (int k = 0; k < E.size(); ++k) colmis = std::max(colmis, (hp.getEigenState(k) - V.col(k)).cwiseAbs().maxCoeff());
+            blocks.push_back({{"E", Es}, {"Eq", Eq}, {"residq", (long)std::floor(resid / delta)}, {"orthoq", (long)std::floor(ortho / delta)},
+                              {"rows", (int)V.rows()}, {"cols", (int)V.cols()}, {"n", (int)E.size()}, {"colmis", (long)std::floor(colmis / delta)}});
+        }
+        r["eig"] = blocks;
+        r["ground"] = dstr(H->getGroundEnergy());
+        r["groundq"] = (long)std::floor(H->getGroundEnergy() / qd);
+        RealVectorType all = H->getEigenValues();
+        json a = json::array();
+        for (int k = 0; k < all.size(); ++k) a.push_back(dstr(all(k)));
+        r["all"] = a;
+        json bl = json::array();
+        unsigned long NS = 1ul << M;
+        for (unsigned long s = 0; s < NS; ++s) bl.push_back(dstr(H->getEigenValue(s)));
+        r["by_label"] = bl;
     }
 
     void q_fieldops(const json& q, json& r) {
